@@ -44,7 +44,7 @@ def run(F, rep):
             rep.holds("C11.derive", adt + "/field-order", "storage is the first (and only non-zero-sized) field")
     # layout + padding preservation by every writer
     rep.run(lemmas.ladder_lemmas, F, rep)
-    rep.run(common.run_kmer_lemmas, F, rep, {"empty", "get", "set", "slice", "rc", "ext", "rank", "canon"})
+    rep.run(common.run_kmer_lemmas, F, rep, {"empty", "get", "set", "slice", "rc", "ext", "rank", "canon", "bucket"})      # "bucket": the grouping key of filter_kmers is monotone in the k-mer order
     # construction routes must agree (the same string gives the same k-mer whichever constructor built it)
     for ty in common.kmer_type_names(F):
         rep.run(lemmas.kmer_default_lemmas, F, rep, ty, which={"from_bytes", "from_ascii"}, rule="L-default")
